@@ -110,6 +110,53 @@ def suite_legacy(seed, tier):
     return r
 
 
+def gen_tall(rng, n_cases):
+    """inputs with one family of 130..400 near-identical rows sharing bits (column counts beyond 127 and
+    255 inside one cluster: the minimal-width counters are at their limits) next to small families"""
+    out = []
+    for _ in range(n_cases):
+        nf = rng.choice([16, 24, 33, 64])
+        base = [1 if rng.random() < 0.5 else 0 for _ in range(nf)]
+        base[0] = 1
+        rows = []
+        for _k in range(rng.choice([130, 180, 230, 262, 400])):
+            row = list(base)
+            if rng.random() < 0.25:
+                row[rng.randrange(1, nf)] ^= 1
+            rows.append(row)
+        for _f in range(rng.randint(1, 4)):
+            other = [1 if rng.random() < 0.4 else 0 for _ in range(nf)]
+            other[rng.randrange(nf)] = 1
+            for _k in range(rng.randint(2, 30)):
+                row = list(other)
+                if rng.random() < 0.3:
+                    row[rng.randrange(nf)] ^= 1
+                if any(row):
+                    rows.append(row)
+        rng.shuffle(rows)
+        crit = rng.choice(["diameter", "radius", "tolerance-diameter", "tolerance-legacy"])
+        cfg = {"crit": crit, "tol": 0.05 if crit.startswith("tol") else None,
+               "thr": rng.choice([0.5, 0.65, 0.8]), "bf": rng.choice([3, 5, 50])}
+        out.append((rows, cfg))
+    return out
+
+
+def suite_reference_tall(seed, tier):
+    """the implementation against the reference procedure (harness/spec_py.py, the executable reading of
+    Model/Spec.v) on inputs with big clusters"""
+    rng = random.Random(seed + 13)
+    r = Result("reference-tall")
+    for rows, cfg in gen_tall(rng, 4 if tier == "quick" else 60):
+        r.cases += 1
+        v = c07_violation(rows, cfg)
+        if v:
+            r.bad.append({"suite": "reference-tall", "what": v, "rows": rows, "cfg": cfg})
+    r.nontrivial = r.cases
+    r.stats = {"inputs": r.cases}
+    r.samples = [{"kind": "one family of 130..400 near-identical rows + small families"}]
+    return r
+
+
 def c07_violation(rows, cfg):
     bb = hist.make_bb(cfg)
     bb.fit(np.array(rows, dtype=np.uint8), input_is_packed=False)
@@ -123,12 +170,15 @@ def c07_violation(rows, cfg):
 def search_c07(seed, tier, failures):
     cands = []
     for kind, d in failures:
+        if isinstance(d, dict) and "rows" in d and "cfg" in d:
+            cands.append((d["rows"], d["cfg"]))
         if isinstance(d, dict) and "history" in d:
             h = d["history"]
             rows = [r for o in h["ops"] if o["op"] == "fit" and o.get("bad_at") is None for r in o["rows"]]
             if rows and all(o["op"] == "fit" for o in h["ops"]):
                 cands.append((rows, h["cfg"]))
     rng = random.Random(seed + 21)
+    cands += gen_tall(rng, 6)
     for _ in range(300 if tier == "quick" else 3000):
         cfg = hist.gen_cfg(rng)
         nf = rng.choice([3, 5, 8, 11, 16, 24])
